@@ -462,6 +462,8 @@ impl Claim {
 pub enum ClaimOp {
     Set(Claim),
     Remove(String),
+    /// GenericBuilder::extend_claims with a map of plain JSON values
+    Extend(Vec<(String, Value)>),
 }
 
 /// operations on ONE GenericBuilder that is built from several times (C14 histories)
@@ -469,6 +471,7 @@ pub enum ClaimOp {
 pub enum GOp {
     Set(Claim),
     Remove(String),
+    Extend(Vec<(String, Value)>),
     Footer(String),
     Assertion(String),
     Build,
@@ -519,6 +522,26 @@ pub struct ParserCfg {
     pub validators: Vec<VSpec>,
     /// batteries layer: PasetoParser::default() (true) or PasetoParser::new() (false)
     pub default_parser: bool,
+    /// GenericParser only: register the expected claims through ONE extend_check_claims(map) call instead of check_claim
+    #[serde(default)]
+    pub expected_via_extend: bool,
+}
+
+/// collects boxed claims for extend_check_claims
+pub struct ExtendSink<'m, 'b>(pub &'m mut std::collections::HashMap<String, Box<dyn erased_serde::Serialize + 'b>>);
+impl<'m, 'b> ExtendSink<'m, 'b> {
+    pub fn push<T: PasetoClaim + serde::Serialize + 'b>(&mut self, c: T) {
+        let k = c.get_key().to_string();
+        self.0.insert(k, Box::new(c));
+    }
+}
+
+fn extend_map(kvs: &[(String, Value)]) -> std::collections::HashMap<String, Box<dyn erased_serde::Serialize>> {
+    let mut m: std::collections::HashMap<String, Box<dyn erased_serde::Serialize>> = std::collections::HashMap::new();
+    for (k, v) in kvs {
+        m.insert(k.clone(), Box::new(v.clone()));
+    }
+    m
 }
 
 /// one step of a parser SESSION: one parser object lives through all steps (C04/C05/C06 histories)
@@ -727,11 +750,32 @@ macro_rules! open_call {
 macro_rules! with_keys {
     // local
     (local, $V:ident, $key:expr, |$bk:ident, $pk:ident| $body:expr) => {{
-        let $bk = PasetoSymmetricKey::<$V, Local>::from(Key::<32>::from($key.sym));
-        let $pk = PasetoSymmetricKey::<$V, Local>::from(Key::<32>::from($key.sym));
+        let $bk = PasetoSymmetricKey::<$V, Local>::from(key32($key.sym));
+        let $pk = PasetoSymmetricKey::<$V, Local>::from(key32($key.sym));
         let _ = (&$bk, &$pk);
         $body
     }};
+}
+
+thread_local! {
+    static CTOR_TURN: std::cell::Cell<u32> = const { std::cell::Cell::new(0) };
+}
+/// rotates through the equivalent public constructors of key types, so that sealing and opening rarely use the same one
+pub fn ctor_turn() -> u32 {
+    CTOR_TURN.with(|c| {
+        let v = c.get().wrapping_add(1);
+        c.set(v);
+        v
+    })
+}
+/// Key<32> from the same 32 bytes through one of its four public constructors
+pub fn key32(b: [u8; 32]) -> Key<32> {
+    match ctor_turn() % 4 {
+        0 => Key::<32>::from(b),
+        1 => Key::<32>::from(&b),
+        2 => Key::<32>::from(&b[..]),
+        _ => Key::<32>::try_from(crate::util::hex(&b).as_str()).unwrap_or_else(|_| Key::<32>::from(b)),
+    }
 }
 
 /// common operations; implemented once per protocol by the macro below
@@ -762,8 +806,19 @@ macro_rules! impl_proto {
                     p.set_footer(Footer::from(f.as_str()));
                 }
                 ia_builder!($assert, p, cfg.assertion.as_deref());
-                for c in &cfg.expected {
-                    check_claim_on!(p, c, check_claim)?;
+                if cfg.expected_via_extend {
+                    let mut m: std::collections::HashMap<String, Box<dyn erased_serde::Serialize + 'a>> = std::collections::HashMap::new();
+                    {
+                        let mut sink = ExtendSink(&mut m);
+                        for c in &cfg.expected {
+                            check_claim_on!(sink, c, push)?;
+                        }
+                    }
+                    p.extend_check_claims(m);
+                } else {
+                    for c in &cfg.expected {
+                        check_claim_on!(p, c, check_claim)?;
+                    }
                 }
                 let mut ext: ValidatorMap = std::collections::HashMap::new();
                 for v in &cfg.validators {
@@ -830,7 +885,7 @@ macro_rules! impl_proto {
             fn core_seal(key: &KeyMat, nonce: &[u8], msg: &str, footer: Option<&str>, ia: Option<&str>) -> (Out<String>, Vec<&'static str>) {
                 guard(
                     || -> Result<String, PasetoError> {
-                        let mut b = Paseto::<$V, $Pu>::builder();
+                        let mut b = if ctor_turn() % 2 == 0 { Paseto::<$V, $Pu>::builder() } else { Paseto::<$V, $Pu>::default() };
                         b.set_payload(Payload::from(msg));
                         if let Some(f) = footer {
                             b.set_footer(Footer::from(f));
@@ -859,6 +914,9 @@ macro_rules! impl_proto {
                                 ClaimOp::Set(c) => set_claim_on!(b, c).map_err(HErr::ClaimCtor)?,
                                 ClaimOp::Remove(k) => {
                                     b.remove_claim(k);
+                                }
+                                ClaimOp::Extend(kvs) => {
+                                    b.extend_claims(extend_map(kvs));
                                 }
                             }
                         }
@@ -889,6 +947,9 @@ macro_rules! impl_proto {
                                         ClaimOp::Set(c) => set_claim_on!(b, c).map_err(HErr::ClaimCtor)?,
                                         ClaimOp::Remove(k) => {
                                             b.remove_claim(k);
+                                        }
+                                        ClaimOp::Extend(kvs) => {
+                                            b.extend_claims(extend_map(kvs));
                                         }
                                     }
                                 }
@@ -956,6 +1017,9 @@ macro_rules! impl_proto {
                         }
                         GOp::Remove(k) => {
                             b.remove_claim(k);
+                        }
+                        GOp::Extend(kvs) => {
+                            b.extend_claims(extend_map(kvs));
                         }
                         GOp::Footer(f) => {
                             b.set_footer(Footer::from(f.as_str()));
@@ -1117,7 +1181,7 @@ fn leak(s: &str) -> &'static str {
 // ---- key handling per kind -------------------------------------------------------------------
 macro_rules! seal_core {
     (local, V2, $b:expr, $key:expr, $nonce:expr) => {{
-        let k = PasetoSymmetricKey::<V2, Local>::from(Key::<32>::from($key.sym));
+        let k = PasetoSymmetricKey::<V2, Local>::from(key32($key.sym));
         if $nonce.len() == 24 {
             let n = Key::<24>::from($nonce);
             $b.try_encrypt(&k, &PasetoNonce::<V2, Local>::from(&n))
@@ -1127,7 +1191,7 @@ macro_rules! seal_core {
         }
     }};
     (local, $V:ident, $b:expr, $key:expr, $nonce:expr) => {{
-        let k = PasetoSymmetricKey::<$V, Local>::from(Key::<32>::from($key.sym));
+        let k = PasetoSymmetricKey::<$V, Local>::from(key32($key.sym));
         let n = Key::<32>::from($nonce);
         $b.try_encrypt(&k, &PasetoNonce::<$V, Local>::from(&n))
     }};
@@ -1149,12 +1213,12 @@ macro_rules! seal_core {
 
 macro_rules! seal_keys {
     (local, $V:ident, $key:expr, |$k:ident| $body:expr) => {{
-        let $k = PasetoSymmetricKey::<$V, Local>::from(Key::<32>::from($key.sym));
+        let $k = PasetoSymmetricKey::<$V, Local>::from(key32($key.sym));
         $body
     }};
     (ed, $V:ident, $key:expr, |$k:ident| $body:expr) => {{
         let kb = Key::<64>::from($key.sk.as_slice());
-        let $k = PasetoAsymmetricPrivateKey::<$V, Public>::from(&kb);
+        let $k = if ctor_turn() % 2 == 0 { PasetoAsymmetricPrivateKey::<$V, Public>::from(&kb) } else { PasetoAsymmetricPrivateKey::<$V, Public>::from($key.sk.as_slice()) };
         $body
     }};
     (p384, $V:ident, $key:expr, |$k:ident| $body:expr) => {{
@@ -1170,7 +1234,7 @@ macro_rules! seal_keys {
 
 macro_rules! open_keys {
     (local, $V:ident, $key:expr, |$k:ident| $body:expr) => {{
-        let $k = PasetoSymmetricKey::<$V, Local>::from(Key::<32>::from($key.sym));
+        let $k = PasetoSymmetricKey::<$V, Local>::from(key32($key.sym));
         $body
     }};
     (ed, $V:ident, $key:expr, |$k:ident| $body:expr) => {{
@@ -1192,7 +1256,7 @@ macro_rules! open_keys {
 /// all keys of a session, constructed BEFORE the parser (the parser's lifetime parameter covers its keys)
 macro_rules! keys_vec {
     (local, $V:ident, $keys:expr, |$ks:ident| $body:expr) => {{
-        let $ks: Vec<PasetoSymmetricKey<$V, Local>> = $keys.iter().map(|k| PasetoSymmetricKey::<$V, Local>::from(Key::<32>::from(k.sym))).collect();
+        let $ks: Vec<PasetoSymmetricKey<$V, Local>> = $keys.iter().map(|k| PasetoSymmetricKey::<$V, Local>::from(key32(k.sym))).collect();
         $body
     }};
     (ed, $V:ident, $keys:expr, |$ks:ident| $body:expr) => {{
